@@ -140,8 +140,24 @@ fn case(cfg: &Config, tmp: &Path, fakebin: &Path, idx: u64, r: &mut Rng, st: &mu
     let n = 1 + r.upto(8);
     let mut a2 = base.clone();
     a2.extend(["-n".to_string(), n.to_string(), "--save-problems".to_string(), out.to_str().unwrap().to_string()]);
-    if r.chance(1, 3) {
-        a2.extend(["-m".to_string(), (1 + r.upto(3)).to_string(), "-t".to_string(), (1 + r.upto(100)).to_string()]);
+    let mut slow_plan = false;
+    match r.below(40) {
+        0..=9 => a2.extend(["-m".to_string(), (1 + r.upto(3)).to_string(), "-t".to_string(), (1 + r.upto(100)).to_string()]),
+        10..=14 => a2.extend(["--time-limit".to_string(), "0".to_string()]),
+        15 => {
+            // a short time limit and one prover that overruns it considerably
+            a2.extend(["-t".to_string(), "1".to_string()]);
+            slow_plan = true;
+        }
+        _ => {}
+    }
+    if slow_plan {
+        if let Some((_, e)) = plan_by_hash.iter_mut().next() {
+            e.3 = 2600;
+        }
+        let plan_text2: String = plan_by_hash.iter().map(|(h, (w, _, _, dl))| format!("{h} {w} {dl}\n")).collect();
+        std::fs::write(&plan_file, &plan_text2).unwrap();
+        st.inc("runs_with_a_prover_overrunning_the_time_limit");
     }
     a2.extend(files.iter().cloned());
     let argv: Vec<&str> = a2.iter().map(|s| s.as_str()).collect();
